@@ -11,8 +11,8 @@
    C05  est only if the authenticated peer = expected (when given) and # local; otherwise the muxer is closed.
    C06  a denial by any behaviour is final: never established, never counted, exactly one failure. *)
 EXTENDS TraceIO, FiniteSets, Integers
-VARIABLES l, bterm, sterm, bclosed, sclosed, q, pend, estPeer, estDir, expect, auth, denied, handed, inDial, syncFail
-vars == <<l, bterm, sterm, bclosed, sclosed, q, pend, estPeer, estDir, expect, auth, denied, handed, inDial, syncFail>>
+VARIABLES l, bterm, sterm, bclosed, sclosed, q, pend, estPeer, estDir, expect, auth, denied, handed, inDial, syncFail, idErr
+vars == <<l, bterm, sterm, bclosed, sclosed, q, pend, estPeer, estDir, expect, auth, denied, handed, inDial, syncFail, idErr>>
 Ids == 1..24
 Peers == 0..3
 PROP == IF "PROP" \in DOMAIN IOEnv THEN IOEnv.PROP ELSE "ALL"
@@ -25,7 +25,7 @@ Init == /\ l = 1 /\ InitReg
         /\ q = <<>> /\ pend = [i \in Ids |-> "none"]
         /\ estPeer = [i \in Ids |-> -1] /\ estDir = [i \in Ids |-> "none"]
         /\ expect = [i \in Ids |-> -1] /\ auth = [i \in Ids |-> {}]
-        /\ denied = [i \in Ids |-> FALSE] /\ handed = {} /\ inDial = 0 /\ syncFail = FALSE
+        /\ denied = [i \in Ids |-> FALSE] /\ handed = {} /\ inDial = 0 /\ syncFail = FALSE /\ idErr = {}
 
 NumEst(ep, p) == Cardinality({i \in Ids : ep[i] = p})
 B1 == Has(R, "b") /\ R.b = "b1"
@@ -36,12 +36,12 @@ Reset == /\ R.e = "reset"
          /\ q' = <<>> /\ pend' = [i \in Ids |-> "none"]
          /\ estPeer' = [i \in Ids |-> -1] /\ estDir' = [i \in Ids |-> "none"]
          /\ expect' = [i \in Ids |-> -1] /\ auth' = [i \in Ids |-> {}]
-         /\ denied' = [i \in Ids |-> FALSE] /\ handed' = {} /\ inDial' = 0 /\ syncFail' = FALSE
+         /\ denied' = [i \in Ids |-> FALSE] /\ handed' = {} /\ inDial' = 0 /\ syncFail' = FALSE /\ idErr' = {}
 
 Dial == /\ R.e = "dial"
         /\ handed' = handed \cup {R.id} /\ expect' = [expect EXCEPT ![R.id] = R.peer]
         /\ inDial' = R.id /\ syncFail' = FALSE
-        /\ UNCHANGED <<bterm, sterm, bclosed, sclosed, q, pend, estPeer, estDir, auth, denied>>
+        /\ UNCHANGED <<bterm, sterm, bclosed, sclosed, q, pend, estPeer, estDir, auth, denied, idErr>>
 
 DialRet ==
   /\ R.e = "dialRet"
@@ -53,20 +53,21 @@ DialRet ==
           /\ sterm' = [sterm EXCEPT ![R.id] = "outErr"]                               \* outcome delivered as the call's Err
           /\ UNCHANGED pend
   /\ inDial' = 0 /\ syncFail' = FALSE
-  /\ UNCHANGED <<bterm, bclosed, sclosed, q, estPeer, estDir, expect, auth, denied, handed>>
+  /\ UNCHANGED <<bterm, bclosed, sclosed, q, estPeer, estDir, expect, auth, denied, handed, idErr>>
 
 (* decisions of any composed behaviour *)
 Decision ==
   /\ R.e \in {"cbPendingOut", "cbPendingIn", "cbEstIn", "cbEstOut"}
   /\ denied' = [denied EXCEPT ![R.id] = @ \/ R.deny]
   /\ handed' = handed \cup {R.id}
-  /\ UNCHANGED <<bterm, sterm, bclosed, sclosed, q, pend, estPeer, estDir, expect, auth, inDial, syncFail>>
+  /\ UNCHANGED <<bterm, sterm, bclosed, sclosed, q, pend, estPeer, estDir, expect, auth, inDial, syncFail, idErr>>
 
 CbDialFailure ==
   /\ R.e = "cbDialFailure" /\ B1
   /\ G("C01", bterm[R.id] = "none")
   /\ bterm' = [bterm EXCEPT ![R.id] = "outErr"]
   /\ pend' = [pend EXCEPT ![R.id] = "none"]
+  /\ idErr' = IF R.kind \in {"WrongPeerId", "LocalPeerId"} THEN idErr \cup {R.id} ELSE idErr
   /\ IF inDial = R.id THEN syncFail' = TRUE /\ G("C01", ~syncFail) /\ UNCHANGED q
      ELSE q' = Append(q, <<"outErr", R.id, 0>>) /\ UNCHANGED syncFail
   /\ UNCHANGED <<sterm, bclosed, sclosed, estPeer, estDir, expect, auth, denied, handed, inDial>>
@@ -76,6 +77,7 @@ CbListenFailure ==
   /\ G("C01", bterm[R.id] = "none")
   /\ bterm' = [bterm EXCEPT ![R.id] = "inErr"]
   /\ pend' = [pend EXCEPT ![R.id] = "none"]
+  /\ idErr' = IF R.kind \in {"WrongPeerId", "LocalPeerId"} THEN idErr \cup {R.id} ELSE idErr
   /\ q' = Append(q, <<"inErr", R.id, 0>>)
   /\ handed' = handed \cup {R.id}
   /\ UNCHANGED <<sterm, bclosed, sclosed, estPeer, estDir, expect, auth, denied, inDial, syncFail>>
@@ -90,7 +92,7 @@ CbConnEstablished ==
   /\ pend' = [pend EXCEPT ![R.id] = "none"]
   /\ estPeer' = [estPeer EXCEPT ![R.id] = R.peer] /\ estDir' = [estDir EXCEPT ![R.id] = R.dir]
   /\ q' = Append(q, <<"est", R.id, NumEst(estPeer', R.peer)>>)
-  /\ UNCHANGED <<sterm, bclosed, sclosed, expect, auth, denied, handed, inDial, syncFail>>
+  /\ UNCHANGED <<sterm, bclosed, sclosed, expect, auth, denied, handed, inDial, syncFail, idErr>>
 
 CbConnClosed ==
   /\ R.e = "cbConnClosed" /\ B1
@@ -99,7 +101,7 @@ CbConnClosed ==
   /\ estPeer' = [estPeer EXCEPT ![R.id] = -1] /\ estDir' = [estDir EXCEPT ![R.id] = "none"]
   /\ G("C02", R.remaining_established = NumEst(estPeer', R.peer) /\ R.peer = estPeer[R.id])
   /\ q' = Append(q, <<"closed", R.id, NumEst(estPeer', R.peer)>>)
-  /\ UNCHANGED <<bterm, sterm, sclosed, pend, expect, auth, denied, handed, inDial, syncFail>>
+  /\ UNCHANGED <<bterm, sterm, sclosed, pend, expect, auth, denied, handed, inDial, syncFail, idErr>>
 
 SwLifecycle ==
   /\ R.e = "swarmEvent" /\ R.kind \in {"est", "outErr", "inErr", "closed"}
@@ -111,18 +113,18 @@ SwLifecycle ==
           /\ sclosed' = [sclosed EXCEPT ![R.id] = IF @ < 2 THEN @ + 1 ELSE 2] /\ UNCHANGED sterm
      ELSE /\ G("C01", sterm[R.id] = "none")
           /\ sterm' = [sterm EXCEPT ![R.id] = R.kind] /\ UNCHANGED sclosed
-  /\ UNCHANGED <<bterm, bclosed, pend, estPeer, estDir, expect, auth, denied, handed, inDial, syncFail>>
+  /\ UNCHANGED <<bterm, bclosed, pend, estPeer, estDir, expect, auth, denied, handed, inDial, syncFail, idErr>>
 
 SwIncoming ==
   /\ R.e = "swarmEvent" /\ R.kind = "incoming"
   /\ G("C06", ~denied[R.id])
   /\ pend' = [pend EXCEPT ![R.id] = "in"] /\ handed' = handed \cup {R.id}
-  /\ UNCHANGED <<bterm, sterm, bclosed, sclosed, q, estPeer, estDir, expect, auth, denied, inDial, syncFail>>
+  /\ UNCHANGED <<bterm, sterm, bclosed, sclosed, q, estPeer, estDir, expect, auth, denied, inDial, syncFail, idErr>>
 
 Env ==
   /\ R.e \in {"envDial", "envUpgrade"}
   /\ auth' = IF R.applied /\ R.ok /\ R.id \in Ids THEN [auth EXCEPT ![R.id] = @ \cup {R.who}] ELSE auth
-  /\ UNCHANGED <<bterm, sterm, bclosed, sclosed, q, pend, estPeer, estDir, expect, denied, handed, inDial, syncFail>>
+  /\ UNCHANGED <<bterm, sterm, bclosed, sclosed, q, pend, estPeer, estDir, expect, denied, handed, inDial, syncFail, idErr>>
 
 ConnectedSet == {estPeer[i] : i \in {j \in Ids : estPeer[j] # -1}}
 SeqToSet(s) == {s[i] : i \in 1..Len(s)}
@@ -138,7 +140,7 @@ Snap ==
               /\ \A p \in Peers : R.is_connected[p + 1] = (p \in ConnectedSet))
   /\ G("C06", (\E i \in Ids : denied[i] /\ bterm[i] # "none") =>
                  (R.established = Cardinality({i \in Ids : estPeer[i] # -1}) /\ R.pending = Cardinality({i \in Ids : pend[i] # "none"})))
-  /\ UNCHANGED <<bterm, sterm, bclosed, sclosed, q, pend, estPeer, estDir, expect, auth, denied, handed, inDial, syncFail>>
+  /\ UNCHANGED <<bterm, sterm, bclosed, sclosed, q, pend, estPeer, estDir, expect, auth, denied, handed, inDial, syncFail, idErr>>
 
 End ==
   /\ R.e = "end"
@@ -146,9 +148,10 @@ End ==
               /\ \A i \in SeqToSet(R.used) : bterm[i] # "none" /\ sterm[i] = bterm[i] /\ bclosed[i] = sclosed[i]
               /\ \A i \in handed : i \in SeqToSet(R.used))
   /\ G("C05", \A k \in 1..Len(R.muxers) : LET m == R.muxers[k] IN
-                 (m.id \in Ids /\ bterm[m.id] # "est") => (m.closed \/ m.dropped))
+                 /\ ((m.id \in Ids /\ bterm[m.id] # "est") => (m.closed \/ m.dropped))
+                 /\ ((m.id \in idErr) => m.done))          \* WrongPeerId / LocalPeerId: the underlying connection is really closed
   /\ G("C06", \A i \in Ids : denied[i] => bterm[i] \in {"outErr", "inErr"})
-  /\ UNCHANGED <<bterm, sterm, bclosed, sclosed, q, pend, estPeer, estDir, expect, auth, denied, handed, inDial, syncFail>>
+  /\ UNCHANGED <<bterm, sterm, bclosed, sclosed, q, pend, estPeer, estDir, expect, auth, denied, handed, inDial, syncFail, idErr>>
 
 Skip ==
   /\ \/ R.e \in {"envIncoming", "failMux", "close", "disconnect", "behClose", "behCloseAll", "keepAlive", "polled",
@@ -158,7 +161,7 @@ Skip ==
                  "emitQueued", "bEmit", "emitF", "hEmit", "hRequestOut", "hStream"}
      \/ R.e = "swarmEvent" /\ R.kind \notin {"est", "outErr", "inErr", "closed", "incoming"}
      \/ R.e \in {"cbDialFailure", "cbListenFailure", "cbConnEstablished", "cbConnClosed"} /\ ~B1
-  /\ UNCHANGED <<bterm, sterm, bclosed, sclosed, q, pend, estPeer, estDir, expect, auth, denied, handed, inDial, syncFail>>
+  /\ UNCHANGED <<bterm, sterm, bclosed, sclosed, q, pend, estPeer, estDir, expect, auth, denied, handed, inDial, syncFail, idErr>>
 
 Next == l <= NRec /\ l' = l + 1 /\
         (Reset \/ Dial \/ DialRet \/ Decision \/ CbDialFailure \/ CbListenFailure \/ CbConnEstablished \/ CbConnClosed
